@@ -142,6 +142,18 @@ def Maybe_(t):
     return TMaybe(t)
 
 
+_ESC = None
+
+
+def py_string(zs):
+    """the python str denoted by a z3 string VALUE (z3's as_string() keeps SMT-LIB escapes such as \\u{0} / \\u{2028})"""
+    import re as _re
+    global _ESC
+    if _ESC is None:
+        _ESC = _re.compile(r"\\u\{([0-9a-fA-F]{1,5})\}|\\u([0-9a-fA-F]{4})")
+    return _ESC.sub(lambda m: chr(int(m.group(1) or m.group(2), 16)), zs.as_string())
+
+
 _sorts = {}
 
 
